@@ -1,9 +1,246 @@
-"""Layer B of C02 (raw lowered models) — filled in once progen exists."""
+"""Layer B of C02: raw lowered models (captured with the export-time optimizer switched off) of generated JAX programs,
+with generated intermediates promoted to extra graph outputs, pushed through the optimizer pass by pass.
+
+Sources (all Hypothesis-generated, shared with the properties that own them):
+  gen  - C03's structures: straight-line `progen` programs, control-flow bodies (C06 grammar), call-site histories of
+         @onnx_function blocks (C07), and mixtures of both; opset / double precision / symbolic leading dim drawn;
+  img  - C12's image programs (convolutions, pooling, NHWC<->NCHW transposes) with generated layout flags;
+  mod  - C01's parametrised Flax/Equinox modules.
+The optimizer is switched off by replacing `conversion_api.optimize_graph` with a no-op *in this process only* (no repo hook).
+"""
+
+from __future__ import annotations
+
+import contextlib
+
+import numpy as np
+import onnx
+
+from vf.core import derive_seed, digest
+
+
+# passes that fire on nearly every raw model; a lowered case only counts as non-trivial when a pattern rewrite fired as well
+HOUSEKEEPING = ("remove_dead_nodes", "prune_unused_graph_inputs", "propagate_elementwise_shapes", "propagate_unary_shapes")
+
+
+@contextlib.contextmanager
+def optimizer_off():
+    from jax2onnx.converter import conversion_api as api
+
+    orig = api.optimize_graph
+    api.optimize_graph = lambda m: m
+    try:
+        yield
+    finally:
+        api.optimize_graph = orig
+
+
+def source_strategy():
+    from hypothesis import strategies as st
+    from vf import blocks, progen
+    from vf.props import c01, c06, c07, c12
+
+    cfg = st.fixed_dictionaries({
+        "opset": st.sampled_from([None, None, 21, 23, 25]),
+        "double": st.sampled_from([False, False, True]),
+        "names": st.just(False),
+        "ir": st.just(False),
+        "sym": st.booleans(),
+    })
+
+    def payload(kind):
+        if kind == "prog":
+            return st.tuples(st.just("gen"), st.tuples(st.tuples(st.just("prog"), progen.programs(max_stmts=8, n_outputs=(1, 3)), st.just(None)), cfg))
+        if kind == "cf":
+            return st.tuples(st.just("gen"), st.tuples(st.tuples(st.just("cf"), c06.body_strategy(3, unsupported_p=10**6), st.booleans()), cfg))
+        if kind == "hist":
+            return st.tuples(st.just("gen"), st.tuples(st.tuples(st.just("hist"), c07.history_strategy(), st.sampled_from(["fn", "uniq"])), cfg))
+        if kind == "mixed":
+            return st.tuples(st.just("gen"), st.tuples(st.tuples(st.just("mixed"), c06.body_strategy(2, unsupported_p=10**6),
+                                                                 st.lists(blocks.site_strategy(), min_size=1, max_size=3)), cfg))
+        if kind == "img":
+            return st.tuples(st.just("img"), st.tuples(c12.prog_strategy(), st.lists(st.integers(0, 2), max_size=2, unique=True),
+                                                       st.lists(st.integers(0, 2), max_size=2, unique=True), st.booleans()))
+        return st.tuples(st.just("mod"), c01.module_strategy())
+
+    # the kind is drawn first so every source gets its share whatever the size of its own grammar
+    src = st.sampled_from(["prog", "prog", "cf", "hist", "mixed", "img", "img", "mod"]).flatmap(payload)
+    return st.tuples(src, st.lists(st.integers(0, 10**6), max_size=3), st.integers(0, 2**31 - 1))
+
+
+def export_raw(kind, payload):
+    """Returns (raw ModelProto, label) or raises."""
+    from vf import jaxutil
+
+    if kind == "gen":
+        from vf.props import c03
+
+        (gk, a, b), cfg = payload
+        cfg = dict(cfg, ir=False, names=False)
+        fn, specs, kw = c03.build_generated(gk, a, b, cfg)
+        with jaxutil.x64(cfg["double"]), optimizer_off():
+            return jaxutil.to_onnx(fn, specs, **kw), gk
+    if kind == "img":
+        from vf.props import c12
+
+        pg, in_idx, out_idx, want_flags = payload
+        fn = c12.make_fn(pg)
+        ins, outs = c12.io_desc(pg)
+        import jax
+
+        specs = [jax.ShapeDtypeStruct(tuple(s), np.float32) for s in ins]
+        kw = {}
+        if want_flags:
+            ii = [i for i in in_idx if i < len(ins) and len(ins[i]) == 4]
+            oo = [i for i in out_idx if i < len(outs) and outs[i] == 4]
+            if ii:
+                kw["inputs_as_nchw"] = ii
+            if oo:
+                kw["outputs_as_nchw"] = oo
+        with optimizer_off():
+            return jaxutil.to_onnx(fn, specs, **kw), "img"
+    if kind == "mod":
+        from vf.props import c01
+
+        import jax
+
+        fn, shape = c01.build_module(payload, 3)
+        with optimizer_off():
+            return jaxutil.to_onnx(fn, [jax.ShapeDtypeStruct(tuple(shape), np.float32)]), "mod:" + str(payload[0])
+    raise ValueError(kind)
+
+
+def promote(model, picks):
+    """Adds up to len(picks) intermediates (top-level node outputs with an inferred tensor type) to graph.output."""
+    if not picks:
+        return model, []
+    try:
+        inf = onnx.shape_inference.infer_shapes(model)
+    except Exception:
+        return model, []
+    produced = {o for n in model.graph.node for o in n.output if o}
+    have = {o.name for o in model.graph.output}
+    cands = [vi for vi in inf.graph.value_info if vi.name in produced and vi.name not in have and vi.type.tensor_type.elem_type]
+    cands.sort(key=lambda v: v.name)
+    if not cands:
+        return model, []
+    m = onnx.ModelProto()
+    m.CopyFrom(model)
+    names = []
+    for p in picks:
+        vi = cands[p % len(cands)]
+        if vi.name in names:
+            continue
+        names.append(vi.name)
+        m.graph.output.append(vi)
+    return m, names
+
+
+def make_feeds(model, seed, bind=2):
+    from onnx import helper
+
+    rng = np.random.default_rng(seed)
+    init = {i.name for i in model.graph.initializer}
+    feeds = {}
+    for vi in model.graph.input:
+        if vi.name in init:
+            continue
+        tt = vi.type.tensor_type
+        shp = tuple(d.dim_value if d.HasField("dim_value") else bind for d in tt.shape.dim)
+        dt = np.dtype(helper.tensor_dtype_to_np_dtype(tt.elem_type))
+        if dt.kind == "f":
+            a = rng.standard_normal(shp).astype(dt)
+        elif dt.kind in "iu":
+            a = rng.integers(0, 4, size=shp).astype(dt)
+        elif dt == np.bool_:
+            a = rng.random(shp) > 0.5
+        else:
+            a = rng.standard_normal(shp).astype(dt)
+        feeds[vi.name] = np.asarray(a)
+    return feeds
+
+
+def check(kind, payload, picks, seed, acc=None):
+    from vf.props import c02
+
+    case = {"kind": "lowered", "source": kind, "payload": payload, "picks": picks, "seed": seed}
+    try:
+        raw, label = export_raw(kind, payload)
+    except Exception as e:
+        if acc:
+            acc.tally("lowered_status", "export_raised")
+            acc.tally("lowered_export_errors", f"{type(e).__name__}: {str(e)[:70]}")
+            acc.case()
+        return []
+    model, promoted = promote(raw, picks)
+    feeds = make_feeds(model, seed)
+    res = c02.differential(model, feeds, function_bodies=True)
+    if not res["valid"] and promoted:
+        # a promoted value the raw model cannot expose (e.g. unknown rank): fall back to the export's own outputs
+        model, promoted = raw, []
+        res = c02.differential(model, feeds, function_bodies=True)
+    if acc:
+        if not res["valid"]:
+            acc.tally("lowered_status", "raw_model_not_runnable")
+            acc.tally("lowered_invalid_reasons", res.get("invalid_reason", "?")[:90])
+            acc.case()
+        else:
+            acc.tally("lowered_status", "ok" if not res["violation"] else "violation")
+            acc.tally("lowered_source", label)
+            acc.tally("lowered_promoted", str(len(promoted)))
+            for f in res["fired"]:
+                acc.tally("lowered_pass_fired", f)
+            rewrites = [f for f in res["fired"] if f.split(":")[-1] not in HOUSEKEEPING]
+            acc.case(key=("lowered", digest([kind, payload]), tuple(promoted)), nontrivial=bool(rewrites))
+            if res["fired"] and len(acc.samples) < 5 and not any(s.get("layer") == "lowered" and s.get("source") == label for s in acc.samples):
+                acc.samples.append({"layer": "lowered", "source": label, "nodes": len(model.graph.node), "functions": len(model.functions),
+                                    "promoted": promoted, "fired": res["fired"]})
+    if res.get("violation"):
+        v = res["violation"]
+        sig = {"layer": "lowered", "pass": v["pass"], "kind": v["kind"], "source": label.split(":")[0], "promoted": bool(promoted),
+               "stage": v.get("stage", "top")}
+        return [{"sig": sig, "case": case, "detail": v["detail"] + f" | promoted={promoted}"}]
+    return []
 
 
 def work(sh, acc):
-    return
+    import hypothesis
+    from hypothesis import HealthCheck, Phase, given, settings
+
+    @hypothesis.seed(derive_seed(sh["seed"], "c02lowered", sh["shard"]))
+    @settings(max_examples=sh["examples"], deadline=None, database=None, suppress_health_check=list(HealthCheck),
+              phases=[Phase.generate], report_multiple_bugs=False)
+    @given(source_strategy())
+    def t(c):
+        (kind, payload), picks, seed = c
+        for v in check(kind, payload, picks, seed, acc):
+            acc.violation(v["sig"], v["case"], v["detail"])
+
+    t()
+
+
+def _tuplify(kind, payload):
+    # JSON round trip turns tuples into lists; the builders index positionally, so lists are fine
+    return payload
 
 
 def replay(case):
-    return []
+    return check(case["source"], _tuplify(case["source"], case["payload"]), case.get("picks", []), case.get("seed", 0))
+
+
+def shrink(v):
+    """Fewer promoted outputs first (program shrinking is left to the owning property's grammar)."""
+    case = dict(v["case"])
+    target = (v["sig"]["pass"], v["sig"]["kind"])
+    picks = list(case.get("picks", []))
+    changed = True
+    while changed and picks:
+        changed = False
+        for i in range(len(picks)):
+            trial = picks[:i] + picks[i + 1:]
+            r = check(case["source"], case["payload"], trial, case.get("seed", 0))
+            if r and (r[0]["sig"]["pass"], r[0]["sig"]["kind"]) == target:
+                picks, changed = trial, True
+                v = r[0]
+                break
+    return v
